@@ -150,6 +150,8 @@ def tlc_errors(out, n=40):
             on = True
         if on:
             keep.append(l)
+    if not keep:
+        keep = lines[-25:]
     return '\n'.join(keep[:n])
 
 
@@ -228,21 +230,30 @@ def cfg_with(ctx, d, cfg, consts):
 def validate_trace(ctx, module, cfg, trace, consts=None, timeout=900, first_line=2):
     """Validates one trace file.  Returns dict(accepted, line, states): `line` is the
     1-based line that could not be consumed when rejected."""
-    d = ctx.specdir()
-    with open(trace) as f:
-        hdr = json.loads(f.readline())
-    open(os.path.join(d, 'TraceHdr.tla'), 'w').write(tlaval.header_module('TraceHdr', hdr))
-    if consts:
-        cfg = cfg_with(ctx, d, cfg, consts)
-    r = run_tlc(ctx, d, module + '.tla', cfg, workers=1, timeout=timeout, env={'TRACE_FILE': os.path.abspath(trace)})
-    shutil.rmtree(d, ignore_errors=True)
-    if r['ok']:
-        return dict(accepted=True, states=r.get('distinct', 0), generated=r.get('generated', 0))
-    out = r['out']
-    if 'Postcondition' in out and 'is false' in out and 'depth' in r:
-        # depth = number of lines consumed + 1 (initial state); the next line is first_line + consumed
-        return dict(accepted=False, line=first_line + r['depth'] - 1, states=r.get('distinct', 0))
-    raise Machinery('trace validation %s on %s broke:\n%s' % (module, trace, tlc_errors(out)))
+    last = None
+    for attempt in range(2):
+        d = ctx.specdir()
+        with open(trace) as f:
+            hdr = json.loads(f.readline())
+        open(os.path.join(d, 'TraceHdr.tla'), 'w').write(tlaval.header_module('TraceHdr', hdr))
+        c = cfg_with(ctx, d, cfg, consts) if consts else cfg
+        r = run_tlc(ctx, d, module + '.tla', c, workers=1, timeout=timeout, env={'TRACE_FILE': os.path.abspath(trace)})
+        shutil.rmtree(d, ignore_errors=True)
+        if r['ok']:
+            return dict(accepted=True, states=r.get('distinct', 0), generated=r.get('generated', 0))
+        out = r['out']
+        if 'Postcondition' in out and 'is false' in out and 'depth' in r:
+            # depth = number of lines consumed + 1 (initial state); the next line is first_line + consumed
+            return dict(accepted=False, line=first_line + r['depth'] - 1, states=r.get('distinct', 0))
+        last = out
+        try:
+            with open(os.path.join(VERIF, '.work', 'last_tlc_failure.log'), 'w') as f:
+                f.write(out)
+        except OSError:
+            pass
+        if 'Attempted' in out or 'nonexistent' in out or 'Parse Error' in out or 'semantic' in out.lower():
+            break  # deterministic failure of the specification on this trace: no point retrying
+    raise Machinery('trace validation %s on %s broke:\n%s' % (module, trace, tlc_errors(last)))
 
 
 def split_scenarios(trace):
